@@ -3497,6 +3497,9 @@ size_t ZSTD_generateSequences(ZSTD_CCtx* zc, ZSTD_Sequence* outSeqs,
     {
         const size_t ret = ZSTD_compress2(zc, dst, dstCapacity, src, srcSize);
         ZSTD_customFree(dst, ZSTD_defaultCMem);
+        /* collection is for this call only : later compressions on this context must emit compressed
+         * blocks again, and must not write into the caller's sequence array */
+        zc->seqCollector.collectSequences = 0;
         FORWARD_IF_ERROR(ret, "ZSTD_compress2 failed");
     }
     assert(zc->seqCollector.seqIndex <= ZSTD_sequenceBound(srcSize));
